@@ -160,11 +160,22 @@ prop("C19", "exploration",
      "abstract configurations (1-4 sources x 0-3 tags; 16 source options and 7 tag options each absent / explicit non-zero / explicit zero-or-false; "
      "optional target, include and ignore lists) rendered as YAML or JSON, parsed with sts.NewConf; oracle = inductive inheritance rule (absent -> "
      "value of the preceding source / default tag, explicit -> as written) and parse(json.Marshal(parsed.Client)) having the same effective value for "
-     "every option; non-trivial = >= 2 sources or >= 2 tags with at least one absent and one explicit zero/false option",
+     "every option; non-trivial = >= 2 sources or >= 2 tags with at least one absent and one explicit zero/false option. "
+     "Running sender: see the assumptions of TestC19Run",
      [dict(pkg="confx", test="TestC19Conf", world="W0", quick=16000, thorough=600000,
-           required_classes=["multi-source", "format-yaml", "format-json"])],
+           required_classes=["multi-source", "format-yaml", "format-json"]),
+      dict(pkg="wirex", test="TestC19Run", world="W3", needs_sts_binary=True, quick=96, thorough=3000, shards=16, shrinktime="60s", timeout=1500,
+           shrink_runs=12, required_classes=["files-under-several-tags", "tagged-file-without-dot", "several-priorities-on-the-wire", "deleting-tag", "non-http-tag"])],
      ["spellings follow the repository's tests and MarshalJSON: in JSON sizes, durations, tri-state options and error-backoff are strings, counts numbers",
-      "the clause about a running sender applying tag settings to matching files needs the real binary and is not covered by this unit"])
+      "running-sender clause (TestC19Run): the real binary twice - a receiver and a one-shot sender (one scan, send, poll, record, exit) with 1 thread - and the "
+      "harness as a recording HTTP proxy between them; 2-9 files named <dir>/<leaf> (leaves with no, one or two dots), a default tag and 0-3 pattern tags "
+      "(anchored directory prefixes, also overlapping alternations, in a drawn order) each giving or omitting priority, order (fifo / lifo / none), delete and "
+      "method; oracle: a file whose first matching tag (default if none) has a non-http method is neither transmitted nor deleted; every other file arrives "
+      "byte-identical and is deleted from the outgoing directory iff its tag says delete; on the wire no part of a lower-priority file precedes a part of a "
+      "higher-priority one; within a group the files go in the tag's order; non-trivial = files under at least two tags",
+      "directory names contain no dot, so that matching the tag pattern against the name (statement) and against the group (code) agree; a non-http method "
+      "is only given to a tag that overlaps no other pattern tag on the generated names; explicit zero priorities are not generated (see the finding)",
+      "real time: a one-shot sender that does not exit within 90 s makes the case inconclusive (skipped), not a violation (that is C16's subject)"])
 
 prop("C17", "exploration",
      "generated directory trees (depth <= 4, hidden files and directories, .lck files, .disabled at root or below, empty files, absolute symlinks to files "
@@ -364,9 +375,10 @@ MANIFEST_TEXT["C06"] = dict(
     note=STAGE_NOTE + " Pause points are inserted by harness/cmd/instrument at build time; with no hook armed the instrumented code is the original code.")
 
 MANIFEST_TEXT["C19"] = dict(
-    technique="property-based testing (rapid): generated configurations in YAML and JSON vs. an inductive inheritance oracle; parse -> JSON -> parse round trip",
+    technique="property-based testing (rapid): generated configurations in YAML and JSON vs. an inductive inheritance oracle; parse -> JSON -> parse round trip; generated tag lists and file sets run through the real binaries with the send order observed at a recording proxy",
     text="Generated-configuration search for the inheritance and re-encoding clauses. Known finding: explicit numeric zeros are overridden. The clause "
-         "about the running sender applying each tag's settings to matching files is NOT decided by this check.",
+         "about the running sender applying each tag's settings to matching files is decided by a second unit that runs the real binary as one-shot "
+         "sender against the real binary as receiver through a recording proxy.",
     note="Configuration documents are generated from an abstract model (option present / absent / explicit zero); parsed through sts.NewConf on temp files.")
 MANIFEST_TEXT["C17"] = dict(
     technique="property-based testing (rapid): generated directory trees and filter settings vs. a reference eligibility predicate; stateful generation of source-directory histories in a deterministic simulation",
